@@ -19,7 +19,8 @@ SOURCES = {
         buffer="Bed6Buffer", kind="delim",
         fields=[("chromosome", "S"), ("start", "i"), ("stop", "i"), ("name", "S"), ("score", "o"), ("strand", "x")],
         canon=[["chr1", "7", "10", "n1", "5", "+"], ["chr22", "5", "1007", "name2", "10", "-"], ["c3", "100", "200", "x", "0", "."]],
-        noncanon=[["chr1", "007", "10", "n1", "05", "+"], ["chr22", "5", "+1007", "name2", "10", "-"], ["c3", "0100", "200", "x", "0", "."]],
+        # scores '5', '10', '.': a selection of the first and the last row holds one-character cells only, one of them the placeholder (reads as 0)
+        noncanon=[["chr1", "007", "10", "n1", "5", "+"], ["chr22", "5", "+1007", "name2", "10", "-"], ["c3", "0100", "200", "x", ".", "."]],
         pairs=[("start", "name"), ("chromosome", "stop"), ("score", "strand"), ("stop", "start")]),
     "bed12": dict(
         buffer="Bed12Buffer", kind="delim",
@@ -30,7 +31,7 @@ SOURCES = {
                ["c3", "100", "200", "x", "0", ".", "100", "200", "0", "3", "1,22,3", "0,10,97"]],
         noncanon=[["chr1", "007", "100", "n1", "5", "+", "8", "90", "0", "2", "10,20,", "0,30,"],
                   ["chr22", "5", "+1007", "name2", "10", "-", "5", "1007", "255,0,0", "1", "1002,", "0,"],
-                  ["c3", "100", "200", "x", "0", ".", "0100", "200", "0", "3", "1,22,3", "0,10,97,"]],
+                  ["c3", "100", "200", "x", ".", ".", "0100", "200", "0", "3", "1,22,3", "0,10,97,"]],      # score '.': the placeholder reads as 0
         pairs=[("block_sizes", "name"), ("start", "block_starts"), ("block_starts", "block_sizes"), ("name", "block_count")]),
     "bed3": dict(
         buffer=None, suffix=".bed", kind="delim",
@@ -152,7 +153,7 @@ def parse_text(kind, text):
     if kind == "p":
         return int(text) - 1
     if kind == "o":
-        return int(text)
+        return 0 if text in (".", "") else int(text)        # the placeholder of an optional number reads as 0
     if kind == "f":
         return repr(float(text))
     if kind == "q":
